@@ -556,6 +556,17 @@ def judge(ctx, impl, case, m, r, probe=False):
         # never skip silently: the theorems would not apply to what was executed
         ctx.dist["render_mismatch"] += 1
         ctx.corr_break("render", rec, "tokens of the text (Lean lexer + expander models)", "EvalBridge.render of the generated tree")
+        # The theorems do not apply to what the model executed, but the property still speaks about the implementation:
+        # the text is the generator's rendering of the tree, and `gcc -E` is asked to confirm that reading before the
+        # implementation is judged against the tree's C value (bounded number of gcc runs).
+        if wf and ctx.dist["render_mismatch:gcc_arbiter"] < 60 and not m.get("big_unsuffixed") and not m.get("escaped_char"):
+            ctx.dist["render_mismatch:gcc_arbiter"] += 1
+            want = int(m["spec"]["v"]) != 0
+            res, diag, _ = gcc_truths([(case["defs"], case["text"])])
+            if 0 in res and 0 not in diag and res[0] == want and (isinstance(tv, dict) or tv != want):
+                got = f"raises {tv['exc']}" if isinstance(tv, dict) else f"evaluates to {tv}"
+                ctx.violation(f"`{case['text']}` {('with -D ' + ' '.join(case['defs'])) if case['defs'] else ''}: C value {m['spec']['v']} "
+                              f"(truth {want}, confirmed by gcc -E); implementation {got}", rec)
         return
     if not wf:
         return
